@@ -293,7 +293,9 @@ def run(ctx):
     # latest = the cumulative fraction queried for the position's vAMM on EVERY path (a new position must start from it),
     # margin = max(0, margin_delta - funding + margin), bad_debt = the clamped remainder
     ctx.rule("R11.8", "remain-margin function: funding = (latest cumulative fraction - checkpoint) * size / decimals, latest queried on every path, margin / bad debt = clamped (margin_delta - funding + margin)", 1)
-    rmf = [f for f in w.crate_fns(ENG) if "RemainMarginResponse" in f.locals[0]["ty"] and not f.derived and "::_::" not in f.pretty and f.kind != "Closure"]
+    # anchor: returns the remain-margin record AND can query (takes Deps) - pure post-processors of the record do not count
+    rmf = [f for f in w.crate_fns(ENG) if "RemainMarginResponse" in f.locals[0]["ty"] and not f.derived and "::_::" not in f.pretty and f.kind != "Closure"
+           and any("Deps" in f.locals[i + 1]["ty"] for i in range(f.arg_count))]
     if len(rmf) != 1:
         ctx.lost("R11.8", "the remain-margin function (found %d candidates)" % len(rmf))
     else:
@@ -346,7 +348,7 @@ def run(ctx):
                         neg = o
                 if neg is True:
                     seen.add("neg")
-                    if mg != ("int", 0) or match(("mag", ("inv", REM)), bd) is None:
+                    if mg != ("int", 0) or match(("mag", REM), bd) is None:
                         bad = bad or "negative remainder: margin = %s, bad_debt = %s" % (norm.show(mg)[:80], norm.show(bd)[:120])
                 elif neg is False:
                     seen.add("nonneg")
